@@ -84,18 +84,19 @@ class CallGraph:
         out.discard(qualname(fn))
         return out
 
-    def reachable(self, roots: list[str]) -> set[str]:
+    def reachable(self, roots: list[str], skip=None) -> set[str]:
+        """Functions reachable from the roots; with ``skip`` (a predicate on qualified names) such nodes are not entered."""
         seen: set[str] = set()
         stack = list(roots)
         while stack:
             q = stack.pop()
-            if q in seen:
+            if q in seen or (skip is not None and q not in roots and skip(q)):
                 continue
             seen.add(q)
             stack.extend(self.edges.get(q, ()))
         return seen
 
-    def path(self, root: str, target: str) -> list[str] | None:
+    def path(self, root: str, target: str, skip=None) -> list[str] | None:
         prev: dict[str, str | None] = {root: None}
         queue = [root]
         while queue:
@@ -108,6 +109,8 @@ class CallGraph:
                     cur = prev[cur]
                 return out[::-1]
             for n in sorted(self.edges.get(q, ())):
+                if skip is not None and skip(n):
+                    continue
                 if n not in prev:
                     prev[n] = q
                     queue.append(n)
